@@ -316,7 +316,8 @@ func c24Engine() *Engine {
 		if tier == "thorough" {
 			nreq += 6
 		}
-		mode := []string{"in-order", "out-of-order", "corrections", "mixed"}[r.Intn(4)]
+		mode := []string{"in-order", "out-of-order", "corrections", "mixed", "aligned"}[r.Intn(5)]
+		ubWin := int64(TFDurations[dests[len(dests)-1]] / time.Second)
 		var reqs [][]bar
 		stored := map[int64]bar{}
 		cursor := day
@@ -335,6 +336,27 @@ func c24Engine() *Engine {
 			case "mixed":
 				if r.Pct(50) {
 					start = day + int64(r.Intn(240))*60
+				}
+			case "aligned":
+				// out of order, short requests, many of them starting exactly on a
+				// window boundary of a destination timeframe (first / last minute of a
+				// window, right after a request to the window before or after it)
+				start = day + int64(r.Intn(240))*60
+				if r.Pct(70) {
+					win := ubWin
+					if r.Pct(30) {
+						win = int64(TFDurations[dests[r.Intn(len(dests))]] / time.Second)
+					}
+					if win > 4*3600 {
+						win = 3600
+					}
+					start -= start % win
+					if r.Pct(25) {
+						start -= 60 // last minute of the window before
+					}
+				}
+				if r.Pct(60) {
+					n = 1 + r.Intn(3)
 				}
 			}
 			t := start
@@ -473,7 +495,14 @@ func c24Engine() *Engine {
 					case f("Volume") != a.v:
 						field = "Volume"
 					}
-					mk("bar-differs", "bar-differs|"+mode+"|"+field, fmt.Sprintf("destination %s window %s holds O=%v H=%v L=%v C=%v V=%v, the base bars stored in that window aggregate to O=%v H=%v L=%v C=%v V=%v",
+					// what in the history touches this bar's upper-bound window (the unit the
+					// trigger caches): a base bar written more than once (a correction), a
+					// request that spans several such windows, a later request writing
+					// before bars that an earlier request stored there
+					ub := int64(TFDurations[dests[len(dests)-1]] / time.Second)
+					uw := wk - wk%ub
+					feat := historyFeatures(reqs, uw, ub)
+					mk("bar-differs", "bar-differs|"+mode+"|"+field+"|"+feat, fmt.Sprintf("destination %s window %s holds O=%v H=%v L=%v C=%v V=%v, the base bars stored in that window aggregate to O=%v H=%v L=%v C=%v V=%v",
 						d, wt, f("Open"), f("High"), f("Low"), f("Close"), f("Volume"), a.o, a.h, a.l, a.c, a.v))
 					return
 				}
@@ -485,6 +514,60 @@ func c24Engine() *Engine {
 		}
 		res.Sample(map[string]interface{}{"seed": seed, "mode": mode, "destinations": dests, "requests": len(reqs), "base_bars": len(stored)})
 	}}
+}
+
+// historyFeatures describes how the request history touches the upper-bound
+// window [uw, uw+ub): which of the situations the aggregation cache is known
+// to mishandle are present.
+func historyFeatures(reqs [][]bar, uw, ub int64) string {
+	times := map[int64]int{}
+	rewritten, spans, backfill := false, false, false
+	maxT := int64(-1)
+	for _, bars := range reqs {
+		in, out := false, false
+		reqMin := int64(-1)
+		for _, b := range bars {
+			if b.T >= uw && b.T < uw+ub {
+				in = true
+				times[b.T]++
+				if times[b.T] > 1 {
+					rewritten = true
+				}
+				if reqMin < 0 || b.T < reqMin {
+					reqMin = b.T
+				}
+			} else {
+				out = true
+			}
+		}
+		if in && out {
+			spans = true
+		}
+		if in {
+			if maxT >= 0 && reqMin < maxT {
+				backfill = true
+			}
+			for _, b := range bars {
+				if b.T >= uw && b.T < uw+ub && b.T > maxT {
+					maxT = b.T
+				}
+			}
+		}
+	}
+	var f []string
+	if rewritten {
+		f = append(f, "rewritten-base-bar")
+	}
+	if spans {
+		f = append(f, "request-spans-windows")
+	}
+	if backfill {
+		f = append(f, "backfill")
+	}
+	if len(f) == 0 {
+		return "plain-history"
+	}
+	return strings.Join(f, "+")
 }
 
 func toIface(s []string) []interface{} {
